@@ -91,25 +91,40 @@ func newModel(tv2 bool) *model {
 
 // enumerate calls leaf for every enabled history of exactly `depth` steps
 // extending prefix, in lexicographic order.
-func enumerate(m *model, hist []sym, depth int, leaf func(h []sym)) {
+func enumerate(m *model, hist []sym, depth int, mask uint32, leaf func(h []sym)) {
 	if len(hist) == depth {
 		leaf(hist)
 		return
 	}
 	for s := sym(0); s < nSym; s++ {
-		if !m.enabled(s) {
+		if mask&(1<<s) == 0 || !m.enabled(s) {
 			continue
 		}
 		c := m.clone()
 		c.exec(s, nil)
-		enumerate(c, append(hist, s), depth, leaf)
+		enumerate(c, append(hist, s), depth, mask, leaf)
 	}
 }
 
-func genUnits(tv2 bool, unitLen int) []unit {
+const fullMask = uint32(1)<<nSym - 1
+
+// deepMask is the transaction/session-focused sub-alphabet of the deep pass.
+const deepMask = uint32(1)<<sP | 1<<sT1 | 1<<sT2 | 1<<sC1 | 1<<sA1 | 1<<sA2 | 1<<sX | 1<<sD | 1<<sG
+
+func maskNames(mask uint32) []string {
+	var out []string
+	for s := sym(0); s < nSym; s++ {
+		if mask&(1<<s) != 0 {
+			out = append(out, symName[s])
+		}
+	}
+	return out
+}
+
+func genUnits(tv2 bool, unitLen int, mask uint32) []unit {
 	var us []unit
 	var prev []sym
-	enumerate(newModel(tv2), nil, unitLen, func(h []sym) {
+	enumerate(newModel(tv2), nil, unitLen, mask, func(h []sym) {
 		u := unit{prefix: append([]sym(nil), h...)}
 		if prev != nil {
 			u.lcpPrev = lcp(prev, h)
@@ -157,35 +172,41 @@ type childResult struct {
 }
 
 type job struct {
-	tv2   bool
-	depth int
-	u     unit
+	tv2      bool
+	depth    int
+	mask     uint32
+	minDepth int // histories of length <= minDepth were observed by an earlier pass
+	u        unit
 }
 
-func depths() (classic, tv2 int) {
-	classic, tv2 = 5, 5
+// depths returns the bounds: full alphabet classic / KIP-890 flavour, and the
+// deep pass over the focused sub-alphabet (classic flavour; 0 = off).
+func depths() (classic, tv2, deep int) {
+	classic, tv2, deep = 5, 5, 0
 	if ev.Thorough() {
-		classic, tv2 = 6, 6
+		classic, tv2, deep = 6, 6, 8
 	}
-	return envInt("C32_DEPTH", classic), envInt("C32_DEPTH_TV2", tv2)
+	return envInt("C32_DEPTH", classic), envInt("C32_DEPTH_TV2", tv2), envInt("C32_DEPTH_DEEP", deep)
 }
 
 func allJobs() []job {
-	depth, depthTV2 := depths()
+	depth, depthTV2, deep := depths()
 	var jobs []job
 	for _, fl := range []struct {
-		tv2 bool
-		d   int
-	}{{false, depth}, {true, depthTV2}} {
-		if fl.d <= 0 {
+		tv2  bool
+		d    int
+		mask uint32
+		min  int
+	}{{false, depth, fullMask, 0}, {true, depthTV2, fullMask, 0}, {false, deep, deepMask, depth}} {
+		if fl.d <= fl.min {
 			continue
 		}
 		ul := 3
 		if fl.d < 4 {
 			ul = 1
 		}
-		for _, u := range genUnits(fl.tv2, ul) {
-			jobs = append(jobs, job{fl.tv2, fl.d, u})
+		for _, u := range genUnits(fl.tv2, ul, fl.mask) {
+			jobs = append(jobs, job{fl.tv2, fl.d, fl.mask, fl.min, u})
 		}
 	}
 	return jobs
@@ -209,7 +230,7 @@ func runJobs(t *testing.T, jobs []job, idx, stride int, deadline time.Time, stat
 		for _, s := range j.u.prefix {
 			m.exec(s, nil)
 		}
-		enumerate(m, append([]sym(nil), j.u.prefix...), j.depth, func(h []sym) {
+		enumerate(m, append([]sym(nil), j.u.prefix...), j.depth, j.mask, func(h []sym) {
 			if res.TimedOut || res.Infra != "" {
 				return
 			}
@@ -232,6 +253,9 @@ func runJobs(t *testing.T, jobs []job, idx, stride int, deadline time.Time, stat
 					checkFrom = ft
 				}
 			}
+			if j.minDepth > checkFrom {
+				checkFrom = j.minDepth // shorter prefixes belong to the full-alphabet pass
+			}
 			first = false
 			prev = append(prev[:0], h...)
 			viol, infra, fm, nreq := runHistory(t, h, j.tv2, checkFrom, false, func(m *model) {
@@ -250,6 +274,13 @@ func runJobs(t *testing.T, jobs []job, idx, stride int, deadline time.Time, stat
 			if infra != nil {
 				res.Infra = fmt.Sprintf("history %q (kip890=%v): %v", histString(h), j.tv2, infra)
 				return
+			}
+			if viol != nil && checkFrom > 0 {
+				// Unobserved earlier steps may already have been wrong: re-run
+				// observing every step so that the key names the first failing step.
+				if v2, _, _, _ := runHistory(t, h, j.tv2, 0, false, nil); v2 != nil {
+					viol = v2
+				}
 			}
 			if viol != nil {
 				res.ViolHist++
@@ -303,10 +334,14 @@ func TestVerifC32(t *testing.T) {
 		os.Exit(replay(t, p))
 	}
 	if spec := os.Getenv("C32_CHILD"); spec != "" {
-		os.Exit(childMain(t, spec))
+		code := childMain(t, spec)
+		if os.Getenv("C32_NOEXIT") != "" { // lets -test.cpuprofile flush; development aid only
+			return
+		}
+		os.Exit(code)
 	}
 	r := ev.New("C32", "model_checking")
-	depth, depthTV2 := depths()
+	depth, depthTV2, deep := depths()
 	deadline := ev.Deadline(8*time.Minute, 60*time.Minute)
 
 	r.Rule("every history of exactly d steps (all shorter histories are its prefixes and are observed once each) over the alphabet " +
@@ -414,7 +449,13 @@ func TestVerifC32(t *testing.T) {
 	r.Traces(total.Leaves)
 	r.Set("depth_classic", depth)
 	r.Set("depth_kip890", depthTV2)
-	r.Set("bound_completed", fmt.Sprintf("all histories of length <= %d (classic flavour), <= %d (KIP-890 flavour, histories with a transactional produce)", depth, depthTV2))
+	r.Set("depth_deep_pass", deep)
+	r.Set("deep_pass_alphabet", maskNames(deepMask))
+	bound := fmt.Sprintf("all histories of length <= %d (classic flavour), <= %d (KIP-890 flavour, histories with a transactional produce)", depth, depthTV2)
+	if deep > depth {
+		bound += fmt.Sprintf("; all histories of length <= %d over the sub-alphabet %v (classic flavour)", deep, maskNames(deepMask))
+	}
+	r.Set("bound_completed", bound)
 	r.Set("histories_observed_distinct_prefixes", total.Nodes)
 	r.Set("histories_executed_maximal", total.Leaves)
 	r.Set("distinct_model_states", len(states))
